@@ -68,3 +68,5 @@ end Inj.Props
 #print axioms Inj.Props.C08_verifier
 #print axioms Inj.Props.C08_reach
 #print axioms Inj.Props.C08_returns
+#print axioms Inj.Props.allowed_meaning
+#print axioms Inj.Props.shape_meaning
